@@ -321,8 +321,8 @@ pub fn eval(expr: Node) -> Result<Number, Box<dyn error::Error>> {
                 Number::Integer(n) => Ok(Number::Integer(n)),
                 Number::Float(n) => {
                     let f = n.floor();
-                    if (f <= (i64::MAX as f64)) && (f >= (i64::MIN as f64)) {
-                        Ok(Number::Integer(n as i64))
+                    if (f < (i64::MAX as f64)) && (f >= (i64::MIN as f64)) {
+                        Ok(Number::Integer(f as i64))
                     } else {
                         Ok(Number::Float(f))
                     }
@@ -335,8 +335,8 @@ pub fn eval(expr: Node) -> Result<Number, Box<dyn error::Error>> {
                 Number::Integer(n) => Ok(Number::Integer(n)),
                 Number::Float(n) => {
                     let f = n.ceil();
-                    if (f <= (i64::MAX as f64)) && (f >= (i64::MIN as f64)) {
-                        Ok(Number::Integer(n as i64))
+                    if (f < (i64::MAX as f64)) && (f >= (i64::MIN as f64)) {
+                        Ok(Number::Integer(f as i64))
                     } else {
                         Ok(Number::Float(f))
                     }
@@ -349,8 +349,8 @@ pub fn eval(expr: Node) -> Result<Number, Box<dyn error::Error>> {
                 Number::Integer(n) => Ok(Number::Integer(n)),
                 Number::Float(n) => {
                     let f = n.round();
-                    if (f <= (i64::MAX as f64)) && (f >= (i64::MIN as f64)) {
-                        Ok(Number::Integer(n as i64))
+                    if (f < (i64::MAX as f64)) && (f >= (i64::MIN as f64)) {
+                        Ok(Number::Integer(f as i64))
                     } else {
                         Ok(Number::from(f))
                     }
